@@ -98,6 +98,7 @@ pub fn run_property(ctx: &Ctx) -> Option<Report> {
                 sim::run_foreign(ctx, &mut r);
                 // the real server loop: foreign SYNs arriving from dead members' addresses change nothing
                 srv::run_targets(ctx, &mut r);
+                r.rule.push_str("; sub-check server-round-targets: the real server loop with peers, seeds, send failures and (a quarter of the cases) foreign-cluster SYNs arriving every round from the addresses of silent peers: they must leave the live and dead sets as they are; non-trivial = own address among the seeds or no live peer");
                 r.rule.push_str("; sub-check foreign-syn-runs: cases = (own cluster id of 0..1,024 bytes, a related foreign id: own+suffix / prefix / case variant / one character changed, a run of 1..1,030 foreign SYNs): each is answered with a rejection and changes nothing; non-trivial = every case");
             }
             if mon == Monitor::C01 {
